@@ -578,7 +578,8 @@ var tamperings = []tampering{
 		editContent(m, func(c pduMap) { c["x"] = json.RawMessage(Pick(r, []string{"1.5", "1e3", "-0", "9007199254740992", "1E400"})) })
 	}},
 	{"top.add", func(r *Rng, m pduMap) {
-		k := Pick(r, []string{"extra", "origin", "membership", "prev_state", "replaces_state", "prev_content", "redacts", "é", "Hashes", "ſender", "Type", "Content", "Unsigned", "Event_id"})
+		k := Pick(r, []string{"extra", "origin", "membership", "prev_state", "replaces_state", "prev_content", "redacts", "é", "Hashes", "ſender", "Type", "Content", "Unsigned", "Event_id",
+			"HASHES", "haſhes", "Signatures", "ſignatureſ", "Origin", "Membership", "Prev_state", "State_key", "ſtate_key", "Sender"})
 		m[k] = json.RawMessage(r.RenderText(r.GenValue(1, false), Style{}))
 	}},
 	{"strip.unsigned", func(r *Rng, m pduMap) { m["unsigned"] = json.RawMessage(`{"age":` + fmt.Sprint(r.Intn(1000)) + `,"x":[1,2]}`) }},
